@@ -98,6 +98,14 @@ func TestVerif_C19_Tbtc(t *testing.T) {
 				}
 			},
 			IndexPaths: []string{"2"},
+			Use: func(v c19Codec) {
+				s := v.(*signer)
+				_ = s.wallet.String()
+				_ = s.wallet.groupSize()
+				_ = s.wallet.membersByOperator("operator")
+				_ = s.privateKeyShare.PublicKey()
+				_ = s.privateKeyShare.Data()
+			},
 		},
 		{
 			Type: "signingDoneMessage", File: f,
@@ -112,6 +120,8 @@ func TestVerif_C19_Tbtc(t *testing.T) {
 				}
 			},
 			IndexPaths: []string{"1"},
+			// bytes signature = 4 holds an encoded tecdsa Signature whose int32 recoveryID = 3 is narrowed to int8
+			Ranges: []c19Range{{Path: "4!.3", Min: -128, Max: 127, Signed: true}},
 		},
 		{
 			Type: "coordinationMessage", File: f,
@@ -126,6 +136,8 @@ func TestVerif_C19_Tbtc(t *testing.T) {
 				return m
 			},
 			IndexPaths: []string{"1"},
+			// uint32 proposal.actionType (4.1) is narrowed to uint8
+			Ranges: []c19Range{{Path: "4.1", Min: 0, Max: 255}},
 		},
 		// ValidityBlocks of the no-op proposal panics by design ("to make
 		// sure that the proposal is not processed by the node")
